@@ -24,6 +24,15 @@ Speeds == {8, 20}               \* per-train maximum speed: slow leaders, fast f
 Gaps == {0, 240, 1500}          \* tie, below the 8 min headway, well above it
 Cars == {20, 80}
 
+\* reduced sets for the quick tier's three-train enumeration (MCDispatchScen_3s.cfg overrides Patterns / Gaps / Cars / Speeds)
+P3 == { << <<"M", 200>>, <<"S", 30>>, <<"M", 300>> >>,
+        << <<"M", 200>>, <<"S", 25>>, <<"M", 350>>, <<"S", 40>>, <<"M", 200>> >>,
+        << <<"M", 150>>, <<"M", 100>>, <<"S", 30>>, <<"M", 200>> >> }
+G3 == {0, 240, 3600}              \* the long gap lets a train finish before the next ones depart
+C3 == {20}
+S3 == {20}
+R3 == {0, 1, 2}
+
 Init == stages \in Patterns /\ lockouts \in BOOLEAN /\ trains = <<>>
 AddTrain == /\ Len(trains) < MaxTrains
             /\ \E d \in {"E", "W"}, g \in Gaps, c \in Cars, vm \in Speeds,
@@ -32,6 +41,14 @@ AddTrain == /\ Len(trains) < MaxTrains
                                            depart |-> (IF trains = <<>> THEN 120 ELSE trains[Len(trains)].depart) + g])
             /\ UNCHANGED <<stages, lockouts>>
 Spec == Init /\ [][AddTrain]_<<stages, lockouts, trains>>
+\* the planner indexes trains in list order: rotating the list makes departure order differ from index order
+\* (a higher-index train may have finished before a lower-index one departs)
+Rots == {0}
+Rotate(sq, k) == [i \in 1..Len(sq) |-> sq[((i - 1 + k) % Len(sq)) + 1]]
+EmitRot(k) == k < Len(trains) =>
+          PrintT(<<"REPLAY", ToJson([stages |-> stages, lockouts |-> lockouts, foul |-> 2, v |-> <<20>>,
+                                     trains |-> Rotate(trains, k)])>>)
+EmitRotated == (Len(trains) >= 2 /\ ~IsD) => \A k \in Rots : EmitRot(k)
 Emit == Len(trains) >= 1 =>
           IF IsD
           THEN lockouts => PrintT(<<"REPLAY", ToJson([topo |-> "diamond", stages |-> << <<"M", 400>> >>, lockouts |-> TRUE,
